@@ -374,3 +374,65 @@ fn d18_header_marker_is_captured_whatever_the_case_of_the_header_name() {
         assert_eq!(h.iter().map(|h| h.value.clone()).collect::<Vec<_>>(), vec!["/lang/fr".to_string()], "header name {}", name);
     }
 }
+
+fn html_filter(action: &str, selector: Option<&str>) -> redirectionio::filter::FilterBodyAction {
+    use redirectionio::api::{BodyFilter, HTMLBodyFilter};
+    redirectionio::filter::FilterBodyAction::new(
+        vec![BodyFilter::HTML(HTMLBodyFilter {
+            action: action.to_string(),
+            element_tree: vec!["html".to_string(), "body".to_string()],
+            css_selector: selector.map(|s| s.to_string()),
+            value: "<X/>".to_string(),
+            id: None,
+            target_hash: None,
+            inner_value: None,
+        })],
+        &[],
+    )
+}
+
+/// D8 (C04, R04.4): at end of stream the held-back tail is emitted before the buffered element, so
+/// the bytes of a truncated document come out reordered.
+#[test]
+fn d08_end_of_stream_flushes_in_input_order() {
+    let doc = "<html><body><p>abc</p><di";
+    for action in ["replace", "append_child", "prepend_child"] {
+        let mut f = html_filter(action, Some("p.x"));
+        let mut out = f.filter(doc.as_bytes().to_vec(), None);
+        out.extend(f.end(None));
+        let out = String::from_utf8_lossy(&out).to_string();
+        // the selector never matches: nothing is inserted or replaced, the document must pass through
+        assert_eq!(out, doc, "action {}", action);
+    }
+}
+
+/// D9 (C04, R04.1) — known finding: bytes held back by the HTML stage are lost when a later chunk
+/// fails (here: invalid UTF-8), although the body must then pass through byte-for-byte.
+#[test]
+fn d09_error_fallback_keeps_the_held_back_bytes() {
+    let mut f = html_filter("append_child", None);
+    let c1 = b"<html><body><p>abc</p><di".to_vec();
+    let c2 = vec![b'v', 0xff, 0xfe, b'>', b'x'];
+    let mut out = f.filter(c1.clone(), None);
+    out.extend(f.filter(c2.clone(), None));
+    out.extend(f.end(None));
+    let mut input = c1;
+    input.extend(c2);
+    assert_eq!(out, input, "out = {:?}", String::from_utf8_lossy(&out));
+}
+
+/// D14 (C03, R03.2) — known finding: the raw-text state of the tokenizer is not carried across
+/// chunks, so a chunk boundary inside <script> changes the result.
+#[test]
+fn d14_chunk_boundary_inside_script_does_not_change_the_output() {
+    let doc = "<html><body><script>document.write(\"</body>\")</script><p>z</p></body></html>";
+    let mut f = html_filter("append_child", None);
+    let mut whole = f.filter(doc.as_bytes().to_vec(), None);
+    whole.extend(f.end(None));
+    let cut = doc.find("document").unwrap() + 3;
+    let mut f = html_filter("append_child", None);
+    let mut parts = f.filter(doc.as_bytes()[..cut].to_vec(), None);
+    parts.extend(f.filter(doc.as_bytes()[cut..].to_vec(), None));
+    parts.extend(f.end(None));
+    assert_eq!(String::from_utf8_lossy(&whole), String::from_utf8_lossy(&parts));
+}
